@@ -148,7 +148,31 @@ func init() {
 
 // c15Paint runs the program on a real Renderer and returns the paint handed to Draw.
 func c15Paint(stops c15Stops, spread, shape int, m [6]float32, mp c15Map, ras *rec.Raster) *rec.Paint {
-	var z render.Renderer
+	dr, _ := c15Paint2(stops, spread, shape, m, mp, ras)
+	if dr == nil {
+		return nil
+	}
+	return &dr.Paint
+}
+
+// c15Square draws the whole viewBox with CREG[8] and returns the Draw call.
+func c15Square(z *render.Renderer, mp c15Map, ras *rec.Raster) *rec.RCall {
+	n0 := len(ras.Calls)
+	z.StartPath(0, mp.vb.MinX, mp.vb.MinY)
+	z.AbsLineTo(mp.vb.MaxX, mp.vb.MinY)
+	z.AbsLineTo(mp.vb.MaxX, mp.vb.MaxY)
+	z.AbsLineTo(mp.vb.MinX, mp.vb.MaxY)
+	z.ClosePathEndPath()
+	for i := n0; i < len(ras.Calls); i++ {
+		if ras.Calls[i].K == rec.RDraw {
+			return &ras.Calls[i]
+		}
+	}
+	return nil
+}
+
+func c15Paint2(stops c15Stops, spread, shape int, m [6]float32, mp c15Map, ras *rec.Raster) (*rec.RCall, *render.Renderer) {
+	z := new(render.Renderer)
 	ras.ResetLog()
 	z.SetRasterizer(ras, mp.rect)
 	z.Reset(mp.vb, ivg.DefaultPalette)
@@ -165,17 +189,7 @@ func c15Paint(stops c15Stops, spread, shape int, m [6]float32, mp c15Map, ras *r
 	}
 	z.SetCSel(8)
 	z.SetCReg(0, false, ivg.RGBAColor(color.RGBA{uint8(len(stops)), 12 | uint8(spread)<<6, 20 | 0x80 | uint8(shape)<<6, 0}))
-	z.StartPath(0, mp.vb.MinX, mp.vb.MinY)
-	z.AbsLineTo(mp.vb.MaxX, mp.vb.MinY)
-	z.AbsLineTo(mp.vb.MaxX, mp.vb.MaxY)
-	z.AbsLineTo(mp.vb.MinX, mp.vb.MaxY)
-	z.ClosePathEndPath()
-	for i := range ras.Calls {
-		if ras.Calls[i].K == rec.RDraw {
-			return &ras.Calls[i].Paint
-		}
-	}
-	return nil
+	return c15Square(z, mp, ras), z
 }
 
 func c15Check(w *mc.W, cs *c15Case) {
@@ -196,11 +210,21 @@ func c15Check(w *mc.W, cs *c15Case) {
 		}
 		w.Fail(key, desc+": "+what, c)
 	}
-	p := c15Paint(stops, cs.Spread, cs.Shape, m, mp, &ras)
-	if p == nil || p.Kind != 2 {
-		fail("no-gradient-paint", fmt.Sprintf("valid gradient was not handed to the rasteriser (%v)", p), math.MinInt32, 0)
+	dr, z := c15Paint2(stops, cs.Spread, cs.Shape, m, mp, &ras)
+	if dr == nil || dr.Paint.Kind != 2 {
+		fail("no-gradient-paint", fmt.Sprintf("valid gradient was not handed to the rasteriser (%v)", dr), math.MinInt32, 0)
 		return
 	}
+	p := &dr.Paint
+	if dr.R != mp.rect {
+		fail("draw-rect", fmt.Sprintf("Draw over %v, target rectangle %v", dr.R, mp.rect), math.MinInt32, 0)
+		return
+	}
+	// The rasteriser samples the paint at sp + (pixel relative to the rectangle): judge the
+	// paint in rectangle-relative pixel space, whatever source point the Renderer chose.
+	spx, spy := float64(dr.SP.X), float64(dr.SP.Y)
+	p.M[2] += p.M[0]*spx + p.M[1]*spy
+	p.M[5] += p.M[3]*spx + p.M[4]*spy
 	// accessors
 	okAcc := p.Shape == cs.Shape && p.Spread == cs.Spread && len(p.Colors) == len(stops) && len(p.Offsets) == len(stops)
 	if okAcc {
@@ -287,7 +311,7 @@ func c15Check(w *mc.W, cs *c15Case) {
 				w.Skip()
 				continue
 			}
-			r, g, b, a := img.At(px, py).RGBA()
+			r, g, b, a := img.At(px+dr.SP.X, py+dr.SP.Y).RGBA()
 			got := [4]float64{float64(r), float64(g), float64(b), float64(a)}
 			if r > a || g > a || b > a {
 				fail("not-premultiplied", fmt.Sprintf("At(%d,%d) = %v is not a valid premultiplied colour", px, py, got), px, py)
@@ -359,6 +383,77 @@ func c15Check(w *mc.W, cs *c15Case) {
 					fail("pixels:vec", fmt.Sprintf("interior pixel (%d,%d) rendered as %v, paint says %v", px, py, c, want), px, py)
 					return
 				}
+			}
+		}
+	}
+	// The same Renderer paints again after only registers changed: (2) the matrix registers,
+	// (3) one stop colour, (4) one stop offset. The gradient value in CREG[8] stays as it is.
+	if cs.PX == nil {
+		var m2 [6]float32
+		for i := range m2 {
+			m2[i] = m[i] * []float32{0.5, -2, 1, 0.25, 4, -1}[i]
+			if i == 2 || i == 5 {
+				m2[i] += 0.25
+			}
+		}
+		z.SetNSel(20)
+		for i := 0; i < 6; i++ {
+			z.SetNReg(uint8(6-i), false, m2[i])
+		}
+		step := func(n int, wantStops []ref.Stop) bool {
+			d := c15Square(z, mp, &ras)
+			w.EvalN(1)
+			if d == nil || d.Paint.Kind != 2 {
+				fail(fmt.Sprintf("repaint-%d:no-gradient-paint", n), "the gradient is still valid after the register change but was not handed to the rasteriser", math.MinInt32, 0)
+				return false
+			}
+			q := &d.Paint
+			qx, qy := float64(d.SP.X), float64(d.SP.Y)
+			q.M[2] += q.M[0]*qx + q.M[1]*qy
+			q.M[5] += q.M[3]*qx + q.M[4]*qy
+			for r := 0; r < rows; r++ {
+				a, b, c := float64(m2[3*r]), float64(m2[3*r+1]), float64(m2[3*r+2])
+				wm := [3]float64{a / sx, b / sy, c + a*ox + b*oy}
+				mg := [3]float64{math.Abs(a / sx), math.Abs(b / sy), math.Abs(c) + math.Abs(a*ox) + math.Abs(b*oy)}
+				for k := 0; k < 3; k++ {
+					if math.Abs(q.M[3*r+k]-wm[k]) > tolM*mg[k]+1e-300 {
+						fail(fmt.Sprintf("repaint-%d:transform", n), fmt.Sprintf("after the matrix registers changed to %v, path %d is painted with Transform()[%d] = %g, expected %g", m2, n, 3*r+k, q.M[3*r+k], wm[k]), math.MinInt32, 0)
+						return false
+					}
+				}
+			}
+			if len(q.Colors) != len(wantStops) || len(q.Offsets) != len(wantStops) {
+				fail(fmt.Sprintf("repaint-%d:stops", n), fmt.Sprintf("path %d painted with %d stops, registers hold %d", n, len(q.Colors), len(wantStops)), math.MinInt32, 0)
+				return false
+			}
+			for i, s := range wantStops {
+				if q.Colors[i] != s.Color || q.Offsets[i] != s.Offset {
+					fail(fmt.Sprintf("repaint-%d:stops", n), fmt.Sprintf("path %d painted with stop %d = (%g, %v), registers hold (%g, %v)", n, i, q.Offsets[i], q.Colors[i], s.Offset, s.Color), math.MinInt32, 0)
+					return false
+				}
+			}
+			return true
+		}
+		cur := append([]ref.Stop(nil), rstops...)
+		if step(2, cur) {
+			last := len(cur) - 1
+			cur[last].Color = color.RGBA{0x12, 0x34, 0x56, 0x78}
+			z.SetCSel(uint8(12 + last))
+			z.SetCReg(0, false, ivg.RGBAColor(cur[last].Color))
+			z.SetCSel(8)
+			if step(3, cur) {
+				// move the first stop down (stays strictly increasing and within [0,1] when it was > 0;
+				// otherwise move the last stop up towards 1)
+				if cur[0].Offset > 0 {
+					cur[0].Offset = float64(float32(cur[0].Offset / 2))
+					z.SetNSel(20)
+					z.SetNReg(0, false, float32(cur[0].Offset))
+				} else if cur[last].Offset < 1 {
+					cur[last].Offset = float64(float32((cur[last].Offset + 1) / 2))
+					z.SetNSel(uint8(20 + last))
+					z.SetNReg(0, false, float32(cur[last].Offset))
+				}
+				step(4, cur)
 			}
 		}
 	}
